@@ -24,12 +24,16 @@ PROVED_NOTE = ("proved on the process model: serving a request never changes the
                "own fresh bus. The extent of the shared state is validated, not assumed: live fingerprint of all module-level "
                "objects. Python module state is an open world: partial in that sense.")
 MANIFEST = {
-    "text": ("Coq invariant proof on the process-state model (shared objects are never written; history independence by "
-             "induction over the history) composed with the full pipeline model; tied to the code by history runs in one "
-             "process against a fresh-process baseline, and by fingerprinting every module-level mutable object after each history."),
-    "note": ("Partial: Python module state is an open world; the fingerprint bounds what could be shared. Trusted: Coq "
-             "kernel/vm_compute, harness, CPython semantics as modelled. No axioms."),
-    "technique": "Coq invariant proof on a process-state model + history correspondence + live state fingerprint",
+    "text": ("PARTIAL as a proof. In the model an assembly is a pure function of (source, files, options) and the shared state "
+             "is returned unchanged by construction, so the Coq theorems (history independence by induction over the history, "
+             "repeatability, frozen buses refuse map/unmap, a program's .map lines go to its own bus) state the modelling "
+             "assumption rather than establish it; what carries the property is the tie: histories of 1-8 assemblies (valid, "
+             "failing at every stage, under other mappings, in one shared project directory) run in one process and compared "
+             "with the same probe in a fresh process under another hash seed, repeated twice, plus a fingerprint of every "
+             "module-level object, class attribute, default argument, closure cell and memo-cache size that directs a battery of probes."),
+    "note": ("Python module state is an open world: the fingerprint bounds what could be shared, the history runs sample it. "
+             "Trusted: Coq kernel/vm_compute, harness, CPython semantics as modelled. No axioms."),
+    "technique": "history correspondence against fresh processes + live state fingerprint; Coq theorems on the process-state model state the assumption",
 }
 MAX_TASKS_PER_CHILD = 20
 
